@@ -73,12 +73,26 @@ class ArgumentList:
             # comments mean what they mean in Python (appending "," to the
             # text put the comma inside a trailing comment, and the filters
             # were dropped without a word)
-            expr = pyparser.parse(
-                "[" + code + "\n]",
-                "exec",
-                lineno_offset=lineno_offset,
-                **exception_kwargs,
-            )
+            try:
+                expr = pyparser.parse(
+                    "[" + code + "]",
+                    "exec",
+                    lineno_offset=lineno_offset,
+                    **exception_kwargs,
+                )
+            except exceptions.SyntaxException as first:
+                # a comment may end the list: close the bracket on a line
+                # of its own.  an error that stays is the first one, whose
+                # line is a line of the list
+                try:
+                    expr = pyparser.parse(
+                        "[" + code + "\n]",
+                        "exec",
+                        lineno_offset=lineno_offset,
+                        **exception_kwargs,
+                    )
+                except exceptions.SyntaxException:
+                    raise first
             if expr.body:
                 expr = _ast.Tuple(elts=expr.body[0].value.elts, ctx=_ast.Load())
         else:
